@@ -51,60 +51,218 @@ Proof.
 Qed.
 
 (* ------------------------------------------------------------------ every declared scalar type *)
-Lemma spec_value_ok_mod t m v : scalar_module t = Some m -> spec_module t = Some m -> In t declared_scalars ->
-  spec_value_ok t v = true -> t <> TYPE_STRING -> mod_value_okb m v = true.
+Ltac fixed_of_tac :=
+  match goal with
+  | |- context [fixed_of ?m] =>
+      let r := eval vm_compute in (fixed_of m) in
+      replace (fixed_of m) with r by reflexivity
+  end; cbv beta iota.
+
+Ltac ssb_setup :=
+  intros Hm Ht Hv; vm_compute in Hm; inversion Hm; subst; clear Hm;
+  match goal with v : val |- _ => destruct v as [z|l|k l]; try discriminate Hv end;
+  cbn [spec_value_ok] in Hv; unfold encode_scalar, spec_encode_field;
+  (f_equal; [symmetry; apply spec_key_eq; [exact Ht|reflexivity]|]);
+  unfold payload; cbn [is_varint_mod spec_payload vint vbytes].
+
+Lemma ssb_TYPE_DOUBLE m tag v : scalar_module TYPE_DOUBLE = Some m -> tag_ok tag -> spec_value_ok TYPE_DOUBLE v = true ->
+  encode_scalar m tag v = spec_encode_field TYPE_DOUBLE tag v.
 Proof.
-  intros _ Hs Hin Hv Hne.
-  destruct t; try (exfalso; cbn in Hin; intuition discriminate); cbn in Hs; inversion Hs; subst; try congruence;
-    destruct v as [z|l|k l]; try discriminate Hv; cbn [spec_value_ok mod_value_okb] in *;
-    try (unfold in_sb; consts; change (2 ^ (32 - 1)) with 2147483648; change (2 ^ (64 - 1)) with 9223372036854775808; lia).
-  unfold zlen. consts. lia.
+  ssb_setup.
+  fixed_of_tac. unfold fixed_payload. rewrite spec_le_eq. cbn [Z.to_nat Pos.to_nat Pos.iter_op Nat.add].
+    f_equal. consts. change (2 ^ (8 * 8)) with 18446744073709551616. rewrite Z.mod_small by lia. reflexivity.
+Qed.
+
+Lemma ssb_TYPE_FLOAT m tag v : scalar_module TYPE_FLOAT = Some m -> tag_ok tag -> spec_value_ok TYPE_FLOAT v = true ->
+  encode_scalar m tag v = spec_encode_field TYPE_FLOAT tag v.
+Proof.
+  ssb_setup.
+  fixed_of_tac. unfold fixed_payload. rewrite spec_le_eq.
+    f_equal. consts. change (2 ^ (8 * 4)) with 4294967296. rewrite Z.mod_small by lia. reflexivity.
+Qed.
+
+Lemma ssb_TYPE_INT64 m tag v : scalar_module TYPE_INT64 = Some m -> tag_ok tag -> spec_value_ok TYPE_INT64 v = true ->
+  encode_scalar m tag v = spec_encode_field TYPE_INT64 tag v.
+Proof.
+  ssb_setup.
+  cbv [to_uint64]. unfold as_u64. consts. rewrite spec_varint_eq by (destruct (z <? 0) eqn:E; lia).
+    f_equal. destruct (Z.ltb_spec z 0); [|rewrite Z.mod_small by lia; reflexivity].
+    symmetry. apply (Z.mod_unique_pos _ _ (-1)); lia.
+Qed.
+
+Lemma ssb_TYPE_UINT64 m tag v : scalar_module TYPE_UINT64 = Some m -> tag_ok tag -> spec_value_ok TYPE_UINT64 v = true ->
+  encode_scalar m tag v = spec_encode_field TYPE_UINT64 tag v.
+Proof.
+  ssb_setup.
+  cbv [to_uint64]. symmetry. apply spec_varint_eq. lia.
+Qed.
+
+Lemma ssb_TYPE_INT32 m tag v : scalar_module TYPE_INT32 = Some m -> tag_ok tag -> spec_value_ok TYPE_INT32 v = true ->
+  encode_scalar m tag v = spec_encode_field TYPE_INT32 tag v.
+Proof.
+  ssb_setup.
+  cbv [to_uint64]. unfold as_u64. consts. rewrite spec_varint_eq by (destruct (z <? 0) eqn:E; lia).
+    f_equal. destruct (Z.ltb_spec z 0); [|rewrite Z.mod_small by lia; reflexivity].
+    symmetry. apply (Z.mod_unique_pos _ _ (-1)); lia.
+Qed.
+
+Lemma ssb_TYPE_FIXED64 m tag v : scalar_module TYPE_FIXED64 = Some m -> tag_ok tag -> spec_value_ok TYPE_FIXED64 v = true ->
+  encode_scalar m tag v = spec_encode_field TYPE_FIXED64 tag v.
+Proof.
+  ssb_setup.
+  fixed_of_tac. unfold fixed_payload. rewrite spec_le_eq.
+    f_equal. consts. change (2 ^ (8 * 8)) with 18446744073709551616. rewrite Z.mod_small by lia. reflexivity.
+Qed.
+
+Lemma ssb_TYPE_FIXED32 m tag v : scalar_module TYPE_FIXED32 = Some m -> tag_ok tag -> spec_value_ok TYPE_FIXED32 v = true ->
+  encode_scalar m tag v = spec_encode_field TYPE_FIXED32 tag v.
+Proof.
+  ssb_setup.
+  fixed_of_tac. unfold fixed_payload. rewrite spec_le_eq.
+    f_equal. consts. change (2 ^ (8 * 4)) with 4294967296. rewrite Z.mod_small by lia. reflexivity.
+Qed.
+
+Lemma ssb_TYPE_BOOL m tag v : scalar_module TYPE_BOOL = Some m -> tag_ok tag -> spec_value_ok TYPE_BOOL v = true ->
+  encode_scalar m tag v = spec_encode_field TYPE_BOOL tag v.
+Proof.
+  ssb_setup.
+  cbv [to_uint64]. symmetry. apply spec_varint_eq. lia.
+Qed.
+
+Lemma ssb_TYPE_STRING m tag v : scalar_module TYPE_STRING = Some m -> tag_ok tag -> spec_value_ok TYPE_STRING v = true ->
+  encode_scalar m tag v = spec_encode_field TYPE_STRING tag v.
+Proof.
+  ssb_setup.
+  fixed_of_tac. unfold zlen. rewrite spec_varint_eq by lia. reflexivity.
+Qed.
+
+Lemma ssb_TYPE_BYTES m tag v : scalar_module TYPE_BYTES = Some m -> tag_ok tag -> spec_value_ok TYPE_BYTES v = true ->
+  encode_scalar m tag v = spec_encode_field TYPE_BYTES tag v.
+Proof.
+  ssb_setup.
+  fixed_of_tac. unfold zlen. rewrite spec_varint_eq by lia. reflexivity.
+Qed.
+
+Lemma ssb_TYPE_UINT32 m tag v : scalar_module TYPE_UINT32 = Some m -> tag_ok tag -> spec_value_ok TYPE_UINT32 v = true ->
+  encode_scalar m tag v = spec_encode_field TYPE_UINT32 tag v.
+Proof.
+  ssb_setup.
+  cbv [to_uint64]. symmetry. apply spec_varint_eq. lia.
+Qed.
+
+Lemma ssb_TYPE_ENUM m tag v : scalar_module TYPE_ENUM = Some m -> tag_ok tag -> spec_value_ok TYPE_ENUM v = true ->
+  encode_scalar m tag v = spec_encode_field TYPE_ENUM tag v.
+Proof.
+  ssb_setup.
+  cbv [to_uint64]. unfold as_u64. consts. rewrite spec_varint_eq by (destruct (z <? 0) eqn:E; lia).
+    f_equal. destruct (Z.ltb_spec z 0); [|rewrite Z.mod_small by lia; reflexivity].
+    symmetry. apply (Z.mod_unique_pos _ _ (-1)); lia.
+Qed.
+
+Lemma ssb_TYPE_SFIXED32 m tag v : scalar_module TYPE_SFIXED32 = Some m -> tag_ok tag -> spec_value_ok TYPE_SFIXED32 v = true ->
+  encode_scalar m tag v = spec_encode_field TYPE_SFIXED32 tag v.
+Proof.
+  ssb_setup.
+  fixed_of_tac. unfold fixed_payload. rewrite spec_le_eq.
+    f_equal. consts. change (2 ^ (8 * 4)) with 4294967296.
+    destruct (Z.ltb_spec z 0); [|rewrite Z.mod_small by lia; reflexivity].
+    symmetry. apply (Z.mod_unique_pos _ _ (-1)); lia.
+Qed.
+
+Lemma ssb_TYPE_SFIXED64 m tag v : scalar_module TYPE_SFIXED64 = Some m -> tag_ok tag -> spec_value_ok TYPE_SFIXED64 v = true ->
+  encode_scalar m tag v = spec_encode_field TYPE_SFIXED64 tag v.
+Proof.
+  ssb_setup.
+  fixed_of_tac. unfold fixed_payload. rewrite spec_le_eq.
+    f_equal. consts. change (2 ^ (8 * 8)) with 18446744073709551616.
+    destruct (Z.ltb_spec z 0); [|rewrite Z.mod_small by lia; reflexivity].
+    symmetry. apply (Z.mod_unique_pos _ _ (-1)); lia.
+Qed.
+
+Lemma ssb_TYPE_SINT32 m tag v : scalar_module TYPE_SINT32 = Some m -> tag_ok tag -> spec_value_ok TYPE_SINT32 v = true ->
+  encode_scalar m tag v = spec_encode_field TYPE_SINT32 tag v.
+Proof.
+  ssb_setup.
+  rewrite sint32_to by (consts; lia). unfold spec_zigzag, zz.
+    symmetry. apply spec_varint_eq. destruct (z <? 0) eqn:E; lia.
+Qed.
+
+Lemma ssb_TYPE_SINT64 m tag v : scalar_module TYPE_SINT64 = Some m -> tag_ok tag -> spec_value_ok TYPE_SINT64 v = true ->
+  encode_scalar m tag v = spec_encode_field TYPE_SINT64 tag v.
+Proof.
+  ssb_setup.
+  rewrite sint64_to by (consts; lia). unfold spec_zigzag, zz.
+    symmetry. apply spec_varint_eq. destruct (z <? 0) eqn:E; lia.
 Qed.
 
 Theorem spec_scalar_bytes t m tag v : In t declared_scalars -> scalar_module t = Some m -> tag_ok tag ->
   spec_value_ok t v = true ->
   encode_scalar m tag v = spec_encode_field t tag v.
 Proof.
-  intros Hin Hm Ht Hv. destruct (module_table t Hin) as [Hs _]. rewrite Hm in Hs. symmetry in Hs.
-  unfold encode_scalar, spec_encode_field.
+  intros Hin. cbn [declared_scalars In] in Hin.
+  repeat (destruct Hin as [<-|Hin]; [first [apply ssb_TYPE_DOUBLE|apply ssb_TYPE_FLOAT|apply ssb_TYPE_INT64|apply ssb_TYPE_UINT64|apply ssb_TYPE_INT32|apply ssb_TYPE_FIXED64|apply ssb_TYPE_FIXED32|apply ssb_TYPE_BOOL|apply ssb_TYPE_STRING|apply ssb_TYPE_BYTES|apply ssb_TYPE_UINT32|apply ssb_TYPE_ENUM|apply ssb_TYPE_SFIXED32|apply ssb_TYPE_SFIXED64|apply ssb_TYPE_SINT32|apply ssb_TYPE_SINT64]|]).
+  contradiction.
+Qed.
+
+
+
+(* the value ranges agree *)
+Lemma spec_value_ok_mod t m v : In t declared_scalars -> scalar_module t = Some m ->
+  spec_value_ok t v = true -> mod_value_okb m v = true.
+Proof.
+  intros Hin Hm Hv. destruct (module_table t Hin) as [Hs _]. rewrite Hm in Hs. symmetry in Hs.
   destruct t; try (exfalso; cbn in Hin; intuition discriminate); cbn in Hs; inversion Hs; subst m; clear Hs;
-    destruct v as [z|l|k l]; try discriminate Hv; cbn [spec_value_ok] in Hv;
-    (f_equal; [symmetry; apply spec_key_eq; [exact Ht|reflexivity]|]);
-    unfold payload; cbn [is_varint_mod spec_payload vint vbytes].
-  - (* double *) vm_compute fixed_of. unfold fixed_payload. rewrite spec_le_eq. cbn [Z.to_nat Pos.to_nat Pos.iter_op Nat.add].
-    f_equal. consts. change (2 ^ (8 * 8)) with 18446744073709551616. rewrite Z.mod_small by lia. reflexivity.
-  - (* float *) vm_compute fixed_of. unfold fixed_payload. rewrite spec_le_eq.
-    f_equal. consts. change (2 ^ (8 * 4)) with 4294967296. rewrite Z.mod_small by lia. reflexivity.
-  - (* int64 *) cbv [to_uint64]. unfold as_u64. consts. rewrite spec_varint_eq by (destruct (z <? 0) eqn:E; lia).
-    f_equal. destruct (Z.ltb_spec z 0); [|rewrite Z.mod_small by lia; reflexivity].
-    symmetry. apply (Z.mod_unique_pos _ _ (-1)); lia.
-  - (* uint64 *) cbv [to_uint64]. apply spec_varint_eq. lia.
-  - (* int32 *) cbv [to_uint64]. unfold as_u64. consts. rewrite spec_varint_eq by (destruct (z <? 0) eqn:E; lia).
-    f_equal. destruct (Z.ltb_spec z 0); [|rewrite Z.mod_small by lia; reflexivity].
-    symmetry. apply (Z.mod_unique_pos _ _ (-1)); lia.
-  - (* fixed64 *) vm_compute fixed_of. unfold fixed_payload. rewrite spec_le_eq.
-    f_equal. consts. change (2 ^ (8 * 8)) with 18446744073709551616. rewrite Z.mod_small by lia. reflexivity.
-  - (* fixed32 *) vm_compute fixed_of. unfold fixed_payload. rewrite spec_le_eq.
-    f_equal. consts. change (2 ^ (8 * 4)) with 4294967296. rewrite Z.mod_small by lia. reflexivity.
-  - (* bool *) cbv [to_uint64]. apply spec_varint_eq. lia.
-  - (* string *) vm_compute fixed_of. unfold zlen. rewrite spec_varint_eq by lia. reflexivity.
-  - (* bytes *) vm_compute fixed_of. unfold zlen. rewrite spec_varint_eq by lia. reflexivity.
-  - (* uint32 *) cbv [to_uint64]. apply spec_varint_eq. lia.
-  - (* enum *) cbv [to_uint64]. unfold as_u64. consts. rewrite spec_varint_eq by (destruct (z <? 0) eqn:E; lia).
-    f_equal. destruct (Z.ltb_spec z 0); [|rewrite Z.mod_small by lia; reflexivity].
-    symmetry. apply (Z.mod_unique_pos _ _ (-1)); lia.
-  - (* sfixed32 *) vm_compute fixed_of. unfold fixed_payload. rewrite spec_le_eq.
-    f_equal. consts. change (2 ^ (8 * 4)) with 4294967296.
-    destruct (Z.ltb_spec z 0); [|rewrite Z.mod_small by lia; reflexivity].
-    apply (Z.mod_unique_pos _ _ (-1)); lia.
-  - (* sfixed64 *) vm_compute fixed_of. unfold fixed_payload. rewrite spec_le_eq.
-    f_equal. consts. change (2 ^ (8 * 8)) with 18446744073709551616.
-    destruct (Z.ltb_spec z 0); [|rewrite Z.mod_small by lia; reflexivity].
-    apply (Z.mod_unique_pos _ _ (-1)); lia.
-  - (* sint32 *) rewrite sint32_to by (consts; lia). unfold spec_zigzag, zz.
-    apply spec_varint_eq. destruct (z <? 0) eqn:E; lia.
-  - (* sint64 *) rewrite sint64_to by (consts; lia). unfold spec_zigzag, zz.
-    apply spec_varint_eq. destruct (z <? 0) eqn:E; lia.
+    destruct v as [z|l|k l]; try discriminate Hv; cbn [spec_value_ok mod_value_okb] in *;
+    unfold in_sb, zlen; consts; lia.
+Qed.
+
+Lemma scalar_module_scalar_mod t m : In t declared_scalars -> scalar_module t = Some m -> scalar_mod m = true.
+Proof.
+  intros Hin Hm. destruct (module_table t Hin) as [Hs _]. rewrite Hm in Hs. symmetry in Hs.
+  destruct t; try (exfalso; cbn in Hin; intuition discriminate); cbn in Hs; inversion Hs; reflexivity.
+Qed.
+
+(* in direction, scalar level: what a conforming encoder writes for a field, pilota reads back *)
+Theorem spec_scalar_in t m tag v r a : In t declared_scalars -> scalar_module t = Some m -> tag_ok tag ->
+  spec_value_ok t v = true ->
+  bind decode_key (fun k => merge_scalar m (snd k)) (mkR (spec_encode_field t tag v ++ r) a)
+  = OOk v (mkR r (a + payload_cost m v)).
+Proof.
+  intros Hin Hm Ht Hv. rewrite <- (spec_scalar_bytes t m tag v Hin Hm Ht Hv).
+  apply scalar_rt; [eapply scalar_module_scalar_mod; eauto|exact Ht|eapply spec_value_ok_mod; eauto].
+Qed.
+
+Lemma spec_payload_eq t m v : In t declared_scalars -> scalar_module t = Some m -> spec_value_ok t v = true ->
+  payload m v = spec_payload t v.
+Proof.
+  intros Hin Hm Hv. pose proof (spec_scalar_bytes t m 1 v Hin Hm ltac:(unfold tag_ok; vm_compute; split; discriminate) Hv) as H.
+  unfold encode_scalar, spec_encode_field in H.
+  destruct (module_table t Hin) as [Hs _]. rewrite Hm in Hs. symmetry in Hs.
+  rewrite (spec_key_eq 1 (spec_wire_type t) (mod_wire_type m)) in H.
+  - apply app_inv_head in H. exact H.
+  - unfold tag_ok; vm_compute; split; discriminate.
+  - destruct t; try (exfalso; cbn in Hin; intuition discriminate); cbn in Hs; inversion Hs; reflexivity.
+Qed.
+
+(* packed form: the spec's packed record is what encode_packed writes, and merge_repeated reads it *)
+Theorem spec_packed_in t m tag vs acc r a : In t declared_scalars -> scalar_module t = Some m -> numeric_mod m = true ->
+  tag_ok tag -> vs <> [] -> Forall (fun v => spec_value_ok t v = true) vs ->
+  zlen (flat_map (spec_payload t) vs) < two64 ->
+  bind decode_key (fun k => merge_repeated m (snd k) acc) (mkR (spec_encode_packed t tag vs ++ r) a)
+  = OOk (acc ++ vs) (mkR r (a + Z.of_nat (length vs))).
+Proof.
+  intros Hin Hm Hn Ht Hne Hg Hl.
+  assert (Hp : flat_map (payload m) vs = flat_map (spec_payload t) vs).
+  { clear Hl Hne. induction Hg as [|v vs Hv Hg IH]; [reflexivity|]. cbn [flat_map]. rewrite IH.
+    rewrite (spec_payload_eq t m v Hin Hm Hv). reflexivity. }
+  assert (Hok : Forall (fun v => mod_value_okb m v = true) vs).
+  { eapply Forall_impl; [|exact Hg]. intros v Hv. eapply spec_value_ok_mod; eauto. }
+  assert (E : spec_encode_packed t tag vs = encode_packed m tag vs).
+  { unfold spec_encode_packed, encode_packed. destruct vs as [|v0 vs0]; [congruence|].
+    rewrite packed_body_len_correct by auto. rewrite Hp.
+    rewrite (spec_key_eq tag W_LEN LengthDelimited Ht eq_refl). unfold zlen.
+    rewrite spec_varint_eq by lia. reflexivity. }
+  rewrite E. apply packed_rt; auto. rewrite Hp. exact Hl.
 Qed.
 
 Example spec_nonvacuous :
